@@ -450,7 +450,7 @@ def frozen_path(prop):
 
 
 # atom categories whose LOSS raises an alarm (engine/atoms.py; chosen on the seeded and benign corpora, DESIGN 3.13)
-ALARM_CATS = tuple((os.environ.get("CKB_VERIF_ATOM_CATS") or "call,recv,arg,dec,must,new,fld,set,grd,arm,grdn,byp").split(","))
+ALARM_CATS = tuple((os.environ.get("CKB_VERIF_ATOM_CATS") or "call,recv,arg,dec,must,new,fld,set,grd,arm,grdn").split(","))
 _CAT_TEXT = {"call": "no longer calls", "recv": "no longer applies (receiver)", "arg": "no longer passes (argument form)", "dec": "no longer tests",
              "must": "rejection test no longer on every successful path:", "mustcall": "no longer on every successful path: call of", "mustq": "fallible step no longer on every successful path:", "new": "no longer builds",
              "fld": "no longer initialises (field form)", "set": "no longer assigns (field form)",
